@@ -90,7 +90,7 @@ def h_continuation(npages: int, c1: int, c2: int, c3: int, stuck: bool):
 # ---------------------------------------------------------------------------- contributors
 
 
-def h_contributors(n1: int, n2: int, n3: int, a1: int, a2: int, cut: int, redirect: bool, n4: int = 0):
+def h_contributors(n1: int, n2: int, n3: int, a1: int, a2: int, cut: int, redirect: bool, anon_late: bool, n4: int = 0):
     """two titles; four contributor entries with names chosen from NAMES, assigned to the titles by a symbolic split, served in
     two continuation chunks cut at a symbolic position; symbolic anonymous counts; optional redirect of the first title"""
     sapi, fetch, authors = _mods()
@@ -114,8 +114,9 @@ def h_contributors(n1: int, n2: int, n3: int, a1: int, a2: int, cut: int, redire
         return d
 
     def do_request(action=None, merge_data=None, **kw):
-        merge_data({}, chunk(entries[:cut], True))
-        merge_data({}, chunk(entries[cut:], False))
+        # the anonymous counts may arrive with either continuation chunk
+        merge_data({}, chunk(entries[:cut], not anon_late))
+        merge_data({}, chunk(entries[cut:], bool(anon_late)))
 
     api = make_api(None)
     api.do_request = do_request
@@ -127,11 +128,11 @@ def h_contributors(n1: int, n2: int, n3: int, a1: int, a2: int, cut: int, redire
     for t, anon in (("A", a1), ("B", a2)):
         ia = res.get(t)
         if ia is None:
-            return {"sig": "contributors|title-missing", "title": t, "names": names, "cut": cut, "redirect": redirect}
+            return {"sig": "contributors|title-missing", "title": t, "names": names, "cut": cut, "redirect": redirect, "anon_late": bool(anon_late)}
         if set(ia.authors) != want[t]:
-            return {"sig": "contributors|wrong-names", "title": t, "got": sorted(ia.authors), "want": sorted(want[t]), "names": names, "cut": cut, "redirect": redirect}
+            return {"sig": "contributors|wrong-names", "title": t, "got": sorted(ia.authors), "want": sorted(want[t]), "names": names, "cut": cut, "redirect": redirect, "anon_late": bool(anon_late)}
         if ia.num_anon != anon:
-            return {"sig": "contributors|anonymous-count", "title": t, "got": ia.num_anon, "want": anon, "names": names, "cut": cut, "redirect": redirect}
+            return {"sig": "contributors|anonymous-count", "title": t, "got": ia.num_anon, "want": anon, "names": names, "cut": cut, "redirect": redirect, "anon_late": bool(anon_late)}
     return None
 
 
@@ -223,7 +224,7 @@ def build(tier: str) -> CheckSpec:
     cubes = [
         Cube("continuation: batches cut at symbolic positions", h_continuation, {"npages": int, "c1": int, "c2": int, "c3": int, "stuck": bool}, {}, timeout=tmo, group="continuation"),
         Cube("contributors: names, bots, anon counts, chunks, redirect", h_contributors,
-             {"n1": int, "n2": int, "n3": int, "a1": int, "a2": int, "cut": int, "redirect": bool}, {"n4": 0}, timeout=tmo, group="contributors"),
+             {"n1": int, "n2": int, "n3": int, "a1": int, "a2": int, "cut": int, "redirect": bool, "anon_late": bool}, {"n4": 0}, timeout=tmo, group="contributors"),
         Cube("get_edits stores what the API reported", h_lookup_written, {"n1": int, "n2": int, "anon": int, "mapped": bool, "t": int}, {}, timeout=tmo, group="authors-store"),
         Cube("split_blocks / get_block", h_blocks, {"n": int, "limit": int}, {}, timeout=tmo, group="batching"),
         Cube("twin: bot filter reachable", twin_contrib, {"n1": int}, {}, timeout=60, role="twin"),
@@ -236,7 +237,7 @@ def build(tier: str) -> CheckSpec:
                    fetch.Fetcher.get_edits, fetch.Fetcher._add_to_titles_pending_contributor_lookup, fetch.Fetcher._lookup_contributors,
                    fetch.split_blocks, fetch.get_block, authors.InspectAuthors.get_authors],
         bounds={"continuation": "0..5 pages, three symbolic cut points, optional server that repeats its continuation token",
-                "contributors": "2 titles, 4 entries with names from %r, symbolic anonymous counts < 1000, chunk cut 0..4, optional redirect" % NAMES,
+                "contributors": "2 titles, 4 entries with names from %r, symbolic anonymous counts < 1000 arriving with the first or the second chunk, chunk cut 0..4, optional redirect" % NAMES,
                 "authors store": "2 names from the same list, symbolic anonymous count, plain and mapped (image) title",
                 "batching": "lists of 0..7 entries, limits 1..8"},
         stubs=["MwApi built with __new__; _handle_request / do_request replaced by a synthetic wiki; Fetcher built with __new__ with a dict-backed fsout and a stub API"],
